@@ -55,7 +55,8 @@ EXHAUSTIVE_SCOPE = {
   "quick": "catalogue of 11 controller-side and 11 switch-side streams (the switch side both pushed into the IOWorker and read through "
            "IOWorker._do_recv from a non-blocking fake socket): every 1-cut position for streams <= 3000 bytes; for larger "
            "streams the cut positions within 9 bytes of a message boundary, within 2 of a multiple of 2048/8192 and every 89th offset; "
-           "every 2-cut for streams <= 140 bytes, and all pairs of header-relative positions for the others; dribble with chunk sizes "
+           "every 2-cut for streams <= 140 bytes, all pairs of positions within 9 bytes of a boundary for streams <= 3000 bytes, and all "
+           "pairs of the offsets -1,0,1,3,4,7,8 around each boundary and of the first two 2048/8192 read boundaries for larger ones; dribble with chunk sizes "
            "1,2,3,5,7,8,9,2047,2048,2049,8191,8192,8193,16383,16384,16385; every truncation length of a trailing message (held, then "
            "completed); bursts of 2,31,32,33,34,40,64,65,100,255,256,257,300,1000,1024,1025 small messages x 3 type mixes delivered "
            "as one segment, in 2 and 3 large segments, in segments of exactly 2048/4096/8192/16384 bytes, and followed by a held tail; "
@@ -63,7 +64,8 @@ EXHAUSTIVE_SCOPE = {
            "40-message burst) x {whole stream, cuts at/around the first 12 message boundaries, 7-byte dribble}, on all and on every "
            "second message; switch side: every prefix length (<= 420-byte streams; header-relative and 1..63 otherwise) read by the "
            "worker before the OFConnection exists x {rest whole, rest cut after 3 bytes, 1-byte dribble}",
-  "thorough": "as quick, every 2-cut for streams <= 420 bytes, every 1-cut of every catalogue stream",
+  "thorough": "as quick, every 2-cut for streams <= 420 bytes, every 1-cut of every catalogue stream, all pairs of header-relative "
+              "and read-boundary positions for the large streams",
 }
 
 _M = None
@@ -585,6 +587,18 @@ def enum_cut2(tier):
       total = sum(lens)
       if total <= bound:
         pos = list(range(1, total))
+      elif total > 3000 and tier == "quick":
+        # large streams cost milliseconds per case: header-relative offsets and the first read boundaries only
+        near = set()
+        p = 0
+        for l in lens + [0]:
+          for d in (-1, 0, 1, 3, 4, 7, 8):
+            near.add(p + d)
+          p += l
+        for unit in (2048, 8192):
+          for m in (unit, 2 * unit):
+            near.update((m - 1, m, m + 1))
+        pos = sorted(x for x in near if 0 < x < total)
       else:
         pos = _special_offsets(lens, total)
         if len(pos) > 120:
